@@ -53,11 +53,14 @@ MutBases == <<
   TS(<<"[", "{", "}", ",", "[", "[", "]", "]", ",", "\"\"", "]">>),
   TS(<<"1">>), TS(<<"-0">>), TS(<<"\"s\"">>), TS(<<"null">>), TS(<<"[", "]">>), TS(<<"{", "}">>),
   TS(<<"1.5">>), TS(<<"1E+2">>), TS(<<"0">>),
+  \* one key spelled three ways: raw pair, both halves escaped, raw high half + escaped low half (one string in ECMAScript)
+  << U("{"), QS(<<55357, 56832>>), U(":"), U("1"), U(","), U("\"\\ud83d\\ude00\""), U(":"), U("2"), U(","),
+     <<34, 55357>> \o U("\\ude00\""), U(":"), U("3"), U(","), U("\"\\ud83d") \o <<56832, 34>>, U(":"), U("4"), U("}") >>,
   Deep(U("["), U("]"), <<U("1")>>, 30),
   JFlatLong(Deep(DeepObjOpen, <<U("}")>>, <<<<U("\"s\"")>>>>, 30)),
   JFlatLong(Deep(<<U("["), U("{"), U("\"k\""), U(":")>>, <<U("}"), U("]")>>, <<<<UNull>>>>, 15))
 >>
-FirstDeepBase == 16
+FirstDeepBase == 17
 Mutants == {
   U("{"), U("}"), U("["), U("]"), U(","), U(":"), <<32>>,
   U("'a'"), U("a"), U("01"), U("-"), U("NaN"), U("Infinity"), U("-Infinity"), U("-NaN"), U("undefined"),
@@ -242,6 +245,7 @@ OutMatches(act, exp) ==
 HasUnit(u, P(_)) == \E j \in 1..Len(u) : P(u[j])
 HasSub(u, pat) == \E j \in 0..(Len(u) - Len(pat)) : OccursAt(u, pat, j)
 Above126(c) == c >= 127
+IsSurrogate(c) == c >= 55296 /\ c <= 57343
 \* prediction for a parse record under the deviation set d
 ParsePred(t0, d) ==
   LET t == t0
@@ -250,13 +254,24 @@ ParsePred(t0, d) ==
    rt |-> IF p.o = "value" THEN JStringify(p.v, d, TRUE) ELSE JNone,
    protos |-> ~(p.o = "value" /\ p.v.k \in {"arr", "obj"} /\ DevParseNoProto \in d)]
 ParseOK(r, pr) == OutMatches(r.out, pr.out) /\ OutMatches(r.rt, pr.rt) /\ r.protos = pr.protos
-\* deviations that can possibly matter (over-approximations; every subset is tried, the smallest explaining one is named)
-ParseRel(t, refout) ==
+\* Explanations.  Candidates are chosen by cheap textual / structural tests, then kept only if switching the deviation
+\* on or off changes the prediction for THIS input (differential relevance); every subset of the relevant ones is
+\* evaluated and all smallest subsets that predict the observation exactly are returned.
+ResEq(a, b) == /\ a.o = b.o
+               /\ (a.o = "value" => SameVal(a.v, b.v))
+               /\ (a.o \in {"throw", "escape"} => a.cls = b.cls)
+HasDigitRun16(t) == \E j \in 1..(Len(t) - 15) : \A x \in j..(j + 15) : JIsDigit(t[x])
+ParseCands(t, refout) ==
   (IF refout.o # "value" THEN {DevParseEscapes} ELSE {})
   \cup (IF HasSub(t, <<78, 97, 78>>) \/ HasSub(t, <<73, 110, 102>>) THEN {DevParseConstants, DevParseEscapes} ELSE {})
   \cup (IF HasSub(t, <<45, 48>>) THEN {DevParseNegZero} ELSE {})
-  \cup (IF Len(t) >= 17 /\ HasUnit(t, JIsDigit) THEN {DevParseBigInt} ELSE {})
-SerRel(v) ==
+  \cup (IF HasDigitRun16(t) THEN {DevParseBigInt} ELSE {})
+  \cup (IF HasUnit(t, IsSurrogate) /\ HasSub(t, <<92, 117>>) THEN {DevParseSplitPair} ELSE {})
+ParseRel(t, refout) ==
+  LET cands == ParseCands(t, refout)
+      all == JParse(t, cands)
+  IN {d \in cands : ~ResEq(JParse(t, {d}), refout) \/ ~ResEq(JParse(t, cands \ {d}), all)}
+SerCands(v) ==
   LET ls == JLeaves(v) IN
   (IF \E j \in 1..Len(ls) : ls[j].k = "num" /\ ~WIsNaN(ls[j].w) /\ ~WIsInf(ls[j].w) THEN {DevFloatRepr, DevToStringRepr} ELSE {})
   \cup (IF \E j \in 1..Len(ls) : ls[j].k = "num" /\ (WIsNaN(ls[j].w) \/ WIsInf(ls[j].w)) THEN {DevNonFinite} ELSE {})
@@ -264,15 +279,19 @@ SerRel(v) ==
   \cup (IF v.k \in {"undef", "fn", "native"} THEN {DevRootNull} ELSE {})
   \cup (IF \E j \in 1..Len(ls) : ls[j].k \in {"fn", "native"} THEN {DevFnNull} ELSE {})
   \cup (IF \E j \in 1..Len(ls) : ls[j].k = "back" THEN {DevCycle} ELSE {})
+\* the printing deviations act on disjoint parts of the text, so one at a time decides relevance
+SerRel(v, ir) == LET base == JStringify(v, {}, ir) IN {d \in SerCands(v) : ~ResEq(JStringify(v, {d}, ir), base)}
+\* Dev_DumpsFloatRepr subsumes Dev_ToStringReprLayout
+SerSubsets(v, ir) == {x \in SUBSET SerRel(v, ir) : ~(DevFloatRepr \in x /\ DevToStringRepr \in x)}
 IsContainer(v) == v.k \in {"arr", "obj"}
 \* two stages: first the deviations that change what the text parses to, then those that change how the result prints
 ParseExplain(r, refout) ==
   UNION { LET p == JParse(r.t, d1) IN
           IF ~OutMatches(r.out, p) THEN {}
           ELSE IF p.o # "value" THEN (IF r.rt.o = "none" THEN {d1} ELSE {})
-          ELSE {d1 \cup d2 : d2 \in {x \in SUBSET (SerRel(p.v) \cup (IF IsContainer(p.v) THEN {DevParseNoProto} ELSE {})) :
-                                        /\ OutMatches(r.rt, JStringify(p.v, x, TRUE))
-                                        /\ r.protos = ~(IsContainer(p.v) /\ DevParseNoProto \in x)}}
+          ELSE IF ~r.protos /\ ~IsContainer(p.v) THEN {}
+          ELSE LET pd == IF ~r.protos THEN {DevParseNoProto} ELSE {}
+               IN {d1 \cup pd \cup x : x \in {y \in SerSubsets(p.v, TRUE) : OutMatches(r.rt, JStringify(p.v, y, TRUE))}}
         : d1 \in SUBSET ParseRel(r.t, refout) } \ {{}}
 \* prediction for a stringify record
 StrPred(v, ir, d) ==
@@ -280,7 +299,11 @@ StrPred(v, ir, d) ==
   [out |-> s,
    rt |-> IF s.o = "value" /\ s.v.k = "str" THEN JParse(s.v.u, d) ELSE JNone]
 StrOK(r, pr) == OutMatches(r.out, pr.out) /\ OutMatches(r.rt, pr.rt)
-StrRel(v) == LET sr == SerRel(v) IN sr \cup (IF DevNonFinite \in sr THEN {DevParseConstants, DevParseEscapes} ELSE {})
+\* a bare NaN / Infinity in the text brings the decoder's extensions into the round trip
+StrExplain(r, v) ==
+  UNION { {x \cup y : y \in {z \in (IF DevNonFinite \in x THEN SUBSET {DevParseConstants, DevParseEscapes} ELSE {{}}) :
+                                StrOK(r, StrPred(v, r.ir, x \cup z))}}
+        : x \in SerSubsets(v, r.ir) } \ {{}}
 \* the explaining subsets of minimal size, as sequences (the caller reports the one whose deviations are all listed)
 Alts(S) == IF S = {} THEN <<>>
            ELSE LET least == CHOOSE n \in 1..Cardinality(AllDevs) : (\E x \in S : Cardinality(x) = n) /\ (\A y \in S : Cardinality(y) >= n)
@@ -289,14 +312,12 @@ Verdict(r) ==
   IF r.kind = "parse"
   THEN LET ref == ParsePred(r.t, {}) IN
        IF ParseOK(r, ref) THEN [v |-> "pass", alts |-> <<>>, exp |-> JNone]
-       ELSE LET S == ParseExplain(r, ref.out) IN
-            [v |-> "mismatch", alts |-> Alts(S), exp |-> ref]
+       ELSE [v |-> "mismatch", alts |-> Alts(ParseExplain(r, ref.out)), exp |-> ref]
   ELSE LET v == Unshare(r.v) IN
        IF ~JWellFormed(v, 0) THEN [v |-> "unsupported", alts |-> <<>>, exp |-> JNone]
        ELSE LET ref == StrPred(v, r.ir, {}) IN
             IF StrOK(r, ref) THEN [v |-> "pass", alts |-> <<>>, exp |-> JNone]
-            ELSE LET S == {d \in SUBSET StrRel(v) : d # {} /\ StrOK(r, StrPred(v, r.ir, d))} IN
-                 [v |-> "mismatch", alts |-> Alts(S), exp |-> ref]
+            ELSE [v |-> "mismatch", alts |-> Alts(StrExplain(r, v)), exp |-> ref]
 JudgeInit == /\ rec_i \in 1..Len(Recs) /\ ph = "judge" /\ cur = <<>>
              /\ LET r == Recs[rec_i]  vd == Verdict(r)
                 IN PrintT(ToJson([id |-> r.id, v |-> vd.v, alts |-> vd.alts, exp |-> vd.exp]))
